@@ -41,6 +41,38 @@ type RefSendRes struct {
 
 const metaName = ".fsutil-metadata"
 
+// payloadOf: what the reference sender streams for a file in the "payload:<delta>" variants - the announced size is
+// not what arrives (the file shrank, grew or vanished after it was listed). The receiver must store the payloads.
+func payloadOf(sc Scn, data []byte) []byte {
+	v, ok := strings.CutPrefix(sc.Variant, "payload:")
+	if !ok {
+		return data
+	}
+	delta := 0
+	fmt.Sscanf(v, "%d", &delta)
+	if delta < 0 {
+		if -delta >= len(data) {
+			return nil
+		}
+		return data[:len(data)+delta]
+	}
+	out := append([]byte{}, data...)
+	for i := 0; i < delta; i++ {
+		out = append(out, 0x5a)
+	}
+	return out
+}
+
+func payloadTree(sc Scn, t fsmodel.Tree) fsmodel.Tree {
+	out := t.Clone()
+	for i := range out {
+		if out[i].Kind == fsmodel.File && out[i].HL == 0 {
+			out[i].Data = payloadOf(sc, out[i].Data)
+		}
+	}
+	return out
+}
+
 // needsContent: a conforming receiver must request exactly the regular non-link
 // files whose identity differs from what the destination holds.
 func needsContent(st *types.Stat, prior fsmodel.Tree) bool {
@@ -113,7 +145,7 @@ func refSendBody(sc Scn, src, dst fsmodel.Tree, destDir string, res *RefSendRes)
 			return sEnd.SendMsg(p) == nil
 		}
 		expectDest := func() fsmodel.Tree {
-			t := filtered(sc, sorted)
+			t := payloadTree(sc, filtered(sc, sorted))
 			if meta {
 				var o fsmodel.Tree
 				for _, n := range t {
@@ -253,6 +285,9 @@ func refSendBody(sc Scn, src, dst fsmodel.Tree, destDir string, res *RefSendRes)
 					pending = pending[1:]
 					mu.Unlock()
 					data := sorted[id].Data
+					if sorted[id].HL == 0 {
+						data = payloadOf(sc, data)
+					}
 					ci := 0
 					for off := 0; off < len(data); {
 						n := 32 * 1024
@@ -387,7 +422,7 @@ func runC07Job(t *testing.T, j *Job, r *evid.Run) *JobRes {
 		if res.Stuck {
 			v = append(v, Viol{"stuck", fmt.Sprintf("blocked with a conforming sender; parked %v", res.Parked)})
 		}
-		want := filtered(sc, src)
+		want := payloadTree(sc, filtered(sc, src))
 		want.Sort()
 		got := res.Dest
 		if meta {
@@ -479,6 +514,14 @@ func driveC07(p *Pool, r *evid.Run) {
 	for _, pref := range []string{"a", "d", "e", "p"} {
 		for _, pol := range pols {
 			scns = append(scns, Scn{Kind: "refsend", Src: "c7plain2", Dst: "empty", Cap: 2, Policy: pol, Variant: "filter:" + pref, SelectAlts: true})
+		}
+	}
+	// what arrives is not what was announced: every file 3 bytes short, empty, or 5 bytes longer than its stat says
+	for _, delta := range []string{"-3", "-1073741824", "5"} {
+		for _, pol := range []string{"run", "recv"} {
+			for _, src := range []string{"c7tiny", "c7src"} {
+				scns = append(scns, Scn{Kind: "refsend", Src: src, Dst: "empty", Cap: 64, Policy: pol, Variant: "payload:" + delta, SelectAlts: true})
+			}
 		}
 	}
 	// a sender that reads requests only after it has sent the whole listing (nothing obliges it to read earlier)
